@@ -99,6 +99,39 @@ def class_table():
     }
 
 
+def _track(b, owner):
+    """record what the user declares on `owner` (PEP, Function or BlockPartition) at the moment of the call"""
+    from PEPit.psd_matrix import PSDMatrix
+    if hasattr(owner, "add_constraint"):
+        orig_c = owner.add_constraint
+
+        def add_constraint(constraint, *a, **k):
+            b.user_decl.append(("sc", constraint, None))
+            return orig_c(constraint, *a, **k)
+        owner.add_constraint = add_constraint
+    if hasattr(owner, "set_initial_condition"):
+        orig_i = owner.set_initial_condition
+
+        def set_initial_condition(condition, *a, **k):
+            return orig_i(condition, *a, **k)        # calls add_constraint (already tracked)
+        owner.set_initial_condition = set_initial_condition
+    if hasattr(owner, "add_psd_matrix"):
+        orig_p = owner.add_psd_matrix
+
+        def add_psd_matrix(matrix_of_expressions, *a, **k):
+            if isinstance(matrix_of_expressions, PSDMatrix):
+                written = [matrix_of_expressions[i, j] for i in range(matrix_of_expressions.shape[0])
+                           for j in range(matrix_of_expressions.shape[1])]
+            else:
+                written = [e for row in matrix_of_expressions for e in row]      # the entries as the user wrote them, now
+            before = list(owner.list_of_psd)
+            out = orig_p(matrix_of_expressions, *a, **k)
+            new = [m for m in owner.list_of_psd if not any(m is o for o in before)]
+            b.user_decl.append(("lmi", new[-1] if new else out, written))
+            return out
+        owner.add_psd_matrix = add_psd_matrix
+
+
 def build(prog):
     """prog: dict(cls, steps, comp, ucons, lmis, metrics, part).  Returns Built with .pep and handles."""
     from PEPit import PEP, Point, Expression, PSDMatrix
@@ -110,8 +143,18 @@ def build(prog):
         prog["_on_pep"]()
     b.pep = pep
     b.held = {}          # name -> object the user holds
+    b.user_decl = []     # what the user declared through the public API, recorded AT DECLARATION TIME:
+                         # ("sc", constraint) | ("lmi", PSDMatrix object, [entry expressions as written by the user])
+
+    _pc, _fc = pep.add_constraint, None
+
+    def decl_sc(c):
+        b.user_decl.append(("sc", c, None))
+        return c
     kind, cls, kw = class_table()[prog["cls"]]
     f = pep.declare_function(cls, **kw)
+    _track(b, pep)
+    _track(b, f)
     b.f = f
     h = None
     Fsum = f
@@ -119,6 +162,9 @@ def build(prog):
         h = pep.declare_function(ConvexFunction)
         Fsum = f + h
     b.h, b.F = h, Fsum
+    if h is not None:
+        _track(b, h)
+        _track(b, Fsum)
     steps = prog.get("steps", "g")
     if kind in ("fun", "nsf", "op"):
         xs = Fsum.stationary_point()
@@ -242,6 +288,24 @@ def build(prog):
             b.held["u%d" % k] = u
         elif code == "S3":
             M = [[dd + 1, t, 0], [t, 1, 0], [0, 0, 1 + dd]]
+        elif code == "V2":      # entries with function values carrying coefficients other than 1
+            if kind in ("fun", "nsf") and "xs" in b.held:
+                M = [[2 * (Fsum(xx) - Fsum(b.held["xs"])) + 1, t], [t, 1]]
+            else:
+                M = [[2 * dd + 1, t], [t, 1]]
+        elif code == "B2":      # declared from a numpy object array that the user re-uses for a second LMI
+            buf = np.empty((2, 2), dtype=object)
+            buf[0, 0], buf[0, 1], buf[1, 0], buf[1, 1] = dd + 1, t, t, 1
+            m = pep.add_psd_matrix(buf)
+            b.held["t%d" % k] = t
+            b.held["lmi%d" % k] = m
+            t2 = Expression()
+            buf[0, 1] = buf[1, 0] = t2
+            buf[0, 0] = dd + 2
+            m2 = pep.add_psd_matrix(buf)
+            b.held["t%db" % k] = t2
+            b.held["lmi%db" % k] = m2
+            continue
         elif code == "F2":      # function-level LMI
             M = [[dd + 1, t], [t, 1]]
         else:
@@ -264,6 +328,10 @@ def build(prog):
         b1 = part.get_block(b.held["x0"], 1)
         b.held.update(blk0=b0, blk1=b1)
         b.part = part
+        _track(b, part)
+        cpu = (b0 ** 2 <= 3)
+        part.add_constraint(cpu)                          # the user's own constraint on the partition
+        b.held["c_part_user"] = cpu
     if prog.get("lmimetric") and "t0" in b.held:
         m1 = b.held["t0"] + 0          # the metric is the off-diagonal variable of the first LMI (t^2 <= |x - x0|^2 + 1)
     pep.set_performance_metric(m1)
@@ -378,7 +446,7 @@ def probe_cvxpy(wrapper, NP, NE):
     return dict(native=native, msizes=sizes, obj=obj)
 
 
-def observe(pep, ret, held, exact=False, with_native=True, extra_evals=True):
+def observe(pep, ret, held, exact=False, with_native=True, extra_evals=True, user_decl=()):
     """Everything a finished solve exposes, as ints/strings."""
     from PEPit.point import Point
     from PEPit.expression import Expression
@@ -413,6 +481,20 @@ def observe(pep, ret, held, exact=False, with_native=True, extra_evals=True):
     out["sent"] = [item(o, "solve-time") for o in w._list_of_constraints_sent_to_solver]
     out["pep_sent_cons"] = [item(o, "solve-time") for o in pep._list_of_constraints_sent_to_wrapper]
     out["pep_sent_lmis"] = [item(o, "solve-time") for o in pep._list_of_psd_sent_to_wrapper]
+    ud = []
+    for kind_, obj, written in user_decl:
+        rec = dict(i=item(obj, "user"), k=kind_, e=[])
+        if kind_ == "lmi":
+            from PEPit.expression import Expression as _E
+            ent = []
+            for e in written:
+                if isinstance(e, _E):
+                    ent.append(proj.jex(e, NP, NE, exact))
+                else:
+                    ent.append(proj.jex(_E(is_leaf=False, decomposition_dict={1: e}), NP, NE, exact))
+            rec["e"] = ent
+        ud.append(rec)
+    out["user_decl"] = ud
     out["tau"] = pep.objective.counter + 1 if pep.objective is not None and pep.objective.get_is_leaf() else 0
     out["ret"] = "none" if ret is None else "num"
     out["retv"] = 0 if ret is None else fx(ret)
